@@ -348,7 +348,7 @@ def finish(prop, level, tier, seed, jobs, t0, assumptions, rule, extra_cov=None,
     for kid, (k, v) in seen_known.items():
         lines.append("KNOWN-FINDING: property=%s %s [%s]" % (prop, k["what"], kid))
     # runs against a deliberately changed tree (VERIF_MUTANT) must not overwrite the evidence of the real tree
-    evdir = os.path.join(VERIF, "evidence") if not os.environ.get("VERIF_MUTANT") else os.path.join(BUILD, "evidence-mutant")
+    evdir = os.path.join(VERIF, "evidence") if not (os.environ.get("VERIF_MUTANT") or os.environ.get("VERIF_JOBS")) else os.path.join(BUILD, "evidence-mutant")
     rdir = os.path.join(evdir, "replay")
     # drop stale replay files of this property
     for f in glob.glob(os.path.join(rdir, prop + "-*.json")):
